@@ -17,6 +17,8 @@ def cases(tier, seed):
         out.append(dict(src=s, family="broadcast"))
     for s in gen.subroutine_arg_cases(3 if tier == "quick" else 5):
         out.append(dict(src=s, family="subroutine-args"))
+    for s in gen.loop_slice_cases():
+        out.append(dict(src=s, family="loop-dependent-slices"))
     for s in gen.sub_body_block_cases():
         out.append(dict(src=s, family="subroutine-body-blocks"))
     n = 250 if tier == "quick" else 3000
